@@ -1,14 +1,16 @@
 /-
   C17 — Every TODO/FIXME comment is reported once with its line; nothing else is.
   Inputs: source texts as lists of SEGMENTS (code that cannot start a comment or literal, string
-  literals, block / line / hash comments), of any number and length; `render` is their concatenation.
+  literals with plain bodies or with the one-character escapes `\" \\ \n …`, character literals `'c'` and
+  `'\c'`, template literals, block / line / hash comments), of any number and length; `render` is their
+  concatenation.
   `lex_render` shows that the (coarse) lexer of the model recovers exactly the literal and comment
   segments with their start lines; the scan therefore looks at the comments only, each once.
   Tie to the code: the model's lexer is compared with the real ANTLR CommentLexer on ~100k generated
   and malformed texts per thorough run (incl. its error recovery and longest-match fallback), and
   `parseComment` with the real ParseComment; markers, strip lengths and identifiers are regenerated.
-  Not covered by the theorem's segment language: escapes inside strings, char and template literals
-  (they are in the model and in the correspondence).
+  Not covered by the theorem's segment language: octal and unicode escapes, escaped backquotes in template
+  literals, malformed literals (they are in the model and in the correspondence).
 -/
 import CocaVerif.Proofs.Todo
 
@@ -48,6 +50,22 @@ theorem comment_toks (segs : List Seg) : ∀ (l : Nat),
     | hash t =>
       simp only [toks, comments, Seg.kind?, List.filter_cons, show isComment Kind.hash = true from rfl, ↓reduceIte,
         List.map_cons, ih]
+    | estr b =>
+      simp only [toks, comments, Seg.kind?, List.filter_cons, show isComment Kind.str = false from rfl,
+        Bool.false_eq_true, ↓reduceIte]
+      exact ih _
+    | chr c =>
+      simp only [toks, comments, Seg.kind?, List.filter_cons, show isComment Kind.chr = false from rfl,
+        Bool.false_eq_true, ↓reduceIte]
+      exact ih _
+    | echr c =>
+      simp only [toks, comments, Seg.kind?, List.filter_cons, show isComment Kind.chr = false from rfl,
+        Bool.false_eq_true, ↓reduceIte]
+      exact ih _
+    | tmpl b =>
+      simp only [toks, comments, Seg.kind?, List.filter_cons, show isComment Kind.tmpl = false from rfl,
+        Bool.false_eq_true, ↓reduceIte]
+      exact ih _
 
 def scanComments (cs : List (List Char × Nat)) : Except String (List Todo) :=
   cs.foldl (fun acc c =>
@@ -58,8 +76,9 @@ def scanComments (cs : List (List Char × Nat)) : Except String (List Todo) :=
     | .error e, _ => .error e) (.ok [])
 
 /-- SCAN EXACTNESS: the report is obtained from the comment segments alone — one `parseComment` per
-    line / block / hash comment, with the line where it starts, in source order.  Text inside string
-    literals and code (whatever markers or TODO words it contains) contributes nothing. -/
+    line / block / hash comment, with the line where it starts, in source order.  Text inside string,
+    character and template literals and code (whatever markers or TODO words it contains, also after an
+    escaped quote) contributes nothing. -/
 theorem scan_exact (segs : List Seg) (h : WF segs = true) :
     scanText (render segs) = scanComments (comments 1 segs) := by
   unfold scanText scanComments
@@ -86,6 +105,10 @@ theorem strings_never_reported (segs : List Seg) (h : WF segs = true)
       | block b => exact absurd hs (by simp)
       | line t => exact absurd hs (by simp)
       | hash t => exact absurd hs (by simp)
+      | estr b => simp only [comments]; exact ih hr _
+      | chr c => simp only [comments]; exact ih hr _
+      | echr c => simp only [comments]; exact ih hr _
+      | tmpl b => simp only [comments]; exact ih hr _
   rw [this 1]; rfl
 
 theorem isPrefixL_length : ∀ (a b : List Char), Todo.isPrefixL a b = true → a.length ≤ b.length := by
@@ -156,5 +179,15 @@ example : WF [.code "x = ".toList, .str "// TODO no".toList, .code " ".toList, .
               .code "\ny ".toList, .hash "fixme later".toList] = true := by decide
 example : (match scanText "x = \"// TODO no\" // TODO(bob): yes\ny #fixme later".toList with | .ok l => l | .error _ => []) =
     [{ assignee := "bob", line := 1, message := "yes" }, { assignee := "", line := 2, message := "later" }] := by decide
+
+/-- non-vacuity for the literal kinds: an escaped quote inside a string before a comment marker, a character
+    literal holding a quote, an escaped character literal, a template literal with a marker, then a real comment -/
+def litSample : List Seg :=
+  [.estr [.plain 'a', .esc '"', .plain '/', .plain '/', .plain 'T', .esc '\\'], .code " ".toList, .chr '"', .code " ".toList,
+   .echr '\'', .code " ".toList, .tmpl "# TODO no".toList, .code "\n".toList, .line "fixme: yes".toList]
+example : WF litSample = true := by decide
+example : String.ofList (render litSample) = "\"a\\\"//T\\\\\" '\"' '\\'' `# TODO no`\n//fixme: yes" := by decide
+example : (match scanText (render litSample) with | .ok l => l | .error _ => []) =
+    [{ assignee := "", line := 2, message := "yes" }] := by decide
 
 end CocaVerif.Props.C17
